@@ -8,9 +8,13 @@ other fields hex), pattern lists `,`-joined (`-` empty), names `space:loc` (hex)
     route <stanzaNS> <name> <patterns>            -> h=<pattern> | router | nop
     children <k> <typ> <patterns> <toks> <cons>   -> `/`-joined <pattern>=<toks read> of the registered handlers that ran
     direct <sep|eof> <k> <typ> <patterns> <toks> <cons> <errs>
-                                                  -> the same `|err=`<ordinals of the failed calls>; HandleXMPP called on a
+                                                  -> the same `|err=`<ordinals of the failed calls>`|w=`<ordinals of the
+                                                     handlers whose write reached the encoder>; HandleXMPP called on a
                                                      reader of that end-of-input framing, handlers in <errs> return an error
-    iqdirect <sep|eof> <typ> <patterns> <toks> <c> -> h=<pattern>@<payload name>=<toks read> | fallback | nothing | err
+    iqdirect <sep|eof> <typ> <patterns> <toks> <c> -> h=<pattern>@<payload name>=<toks read> | fallback@<to>/<from>/<id> of
+                                                     the reply | nothing | err
+    (<typ> of children / direct / iqdirect is the type the harness' specification reads from the start element's own
+     attributes; the model reads it from <toks> itself and answers MODEL-TYPE=… when the two differ)
     iqdefault <typ> <name> <patterns>             -> h=<pattern> | fallback | nothing
     hist <stanzaNS> <op,op,…>                     -> `;`-joined results; op = R<pattern> | R!<pattern> (nil handler) |
                                                      L<pattern as query> | D<name>
@@ -78,24 +82,34 @@ def handle (args : List String) : Option String :=
   | ["children", k, typ, pats, toks, cons] => do
     let k ← decKind k; let typ ← field typ; let pats ← decPatterns pats
     let toks ← decToks toks; let cons ← decNats cons
-    let calls := (forChildren pats k typ toks cons).filterMap fun c =>
+    -- the type is the model's reading of the stanza's own attributes (`msgRouter` /
+    -- `presenceRouter`); the harness states the type its specification derives
+    let mtyp := (stanzaHdr k (startAttrs toks)).typ
+    if mtyp != typ then pure s!"MODEL-TYPE={hexF mtyp}" else
+    let calls := (forChildren pats k mtyp toks cons).filterMap fun c =>
       c.pat.map fun p => encPattern p ++ "=" ++ encToks c.view
     pure (if calls.isEmpty then "-" else "/".intercalate calls)
   | ["direct", fr, k, typ, pats, toks, cons, errs] => do
     let fr ← (if fr == "sep" then some Framing.sep else if fr == "eof" then some Framing.eof else none)
     let k ← decKind k; let typ ← field typ; let pats ← decPatterns pats
     let toks ← decToks toks; let cons ← decNats cons; let errs ← decNats errs
-    let all := forChildrenF fr pats k typ toks cons
+    let mtyp := (stanzaHdr k (startAttrs toks)).typ
+    if mtyp != typ then pure s!"MODEL-TYPE={hexF mtyp}" else
+    let all := stanzaRoute fr pats k toks cons
     let calls := all.filterMap fun c =>
       c.pat.map fun p => encPattern p ++ "=" ++ encToks c.view
     let failed := failedCalls all errs
     let e := if failed.isEmpty then "-" else ",".intercalate (failed.map toString)
-    pure ((if calls.isEmpty then "-" else "/".intercalate calls) ++ "|err=" ++ e)
+    let w := writesOf all
+    let ws := if w.isEmpty then "-" else ",".intercalate (w.map toString)
+    pure ((if calls.isEmpty then "-" else "/".intercalate calls) ++ "|err=" ++ e ++ "|w=" ++ ws)
   | ["iqdirect", _fr, typ, pats, toks, c] => do
     let typ ← field typ; let pats ← decPatterns pats; let toks ← decToks toks; let c ← c.toNat?
-    pure (match iqRoute pats typ toks c with
+    let mtyp := (stanzaHdr .iq (startAttrs toks)).typ
+    if mtyp != typ then pure s!"MODEL-TYPE={hexF mtyp}" else
+    pure (match iqRouteA pats toks c with
       | .handler p n view => "h=" ++ encPattern p ++ "@" ++ hexF n.space ++ ":" ++ hexF n.loc ++ "=" ++ encToks view
-      | .fallback => "fallback"
+      | .reply h => "fallback@" ++ hexF h.to ++ "/" ++ hexF h.frm ++ "/" ++ hexF h.id
       | .nothing => "nothing"
       | .err => "err")
   | ["iqdefault", typ, n, pats] => do
